@@ -10,8 +10,9 @@ import time
 from . import tlc, tlaval
 
 VERIF = tlc.VERIF
-EVIDENCE = os.path.join(VERIF, "evidence")
-REPLAYS = os.path.join(VERIF, "replays")
+# seeded-change evaluation redirects both so that the committed evidence is not overwritten
+EVIDENCE = os.environ.get("VERIF_EVIDENCE_DIR") or os.path.join(VERIF, "evidence")
+REPLAYS = os.environ.get("VERIF_REPLAY_DIR") or os.path.join(VERIF, "replays")
 
 EXIT_OK, EXIT_VIOLATION, EXIT_MACHINERY = 0, 1, 2
 
